@@ -103,8 +103,45 @@ def word_space(step, mode, length, tier, reduced=False):
         '%d symbols' % len(alpha), decoy_every=1024)
 
 
+def far_alphabet(step):
+    """Decimal levels hundreds of steps away from zero, with their
+    neighbours: there y / step and y * (1 / step) round differently"""
+    vals = []
+    for k in (1531, -1526):
+        for j in (0, 1):
+            lit = float(repr(round((k + j) * step, 9)))
+            for w in (lit, math.nextafter(lit, -math.inf),
+                      math.nextafter(lit, math.inf)):
+                if w not in vals:
+                    vals.append(w)
+        vals.append(float(repr(round((k + 0.5) * step, 9))))
+    return vals
+
+
+def far_space(step, mode, length):
+    alpha = far_alphabet(step)
+    # words stay within one of the two level regions (a segment joining the
+    # two would cross three thousand levels)
+    half = len(alpha) // 2
+    size = 2 * half ** length
+
+    def decode(i):
+        region = i % 2
+        i //= 2
+        ys = []
+        for _ in range(length):
+            ys.append(alpha[region * half + i % half])
+            i //= half
+        return {'kind': 'word', 'step': step, 'xmode': mode, 'y': ys}
+    return Space('regrid/step=%g/x=%s/len=%d/levels around +-1500 steps'
+                 % (step, mode, length), size, decode, decoy_every=1024)
+
+
 def spaces(tier):
     out = []
+    for step in STEPS + [0.2, 0.7]:
+        for length in (2, 3):
+            out.append(far_space(step, 'unit', length))
     for step in STEPS:
         for mode in XMODES:
             for length in ((2, 3) if tier == 'quick' else (2, 3, 4)):
